@@ -11,8 +11,12 @@ operation.
 """
 import json
 import os
+import sys
 
 from vlib import common as C
+
+sys.path.insert(0, os.path.join(C.ROOT, "tools"))
+import translate_smallvec  # noqa: E402
 
 TYPES = ["int", "double", "string", "tracked", "pod"]
 TRIVIAL = ("int", "double", "pod")
@@ -790,11 +794,55 @@ def shrink(exe, sc, kind, budget=160):
     return [sc.lines[0]] + ops + ["end"]
 
 
+def translate(chk, broken):
+    """Regenerate lean/Vita/C20/Gen.lean from the clang AST of the working tree (statement skeleton of every
+    function of small_vector.{h,tcc}; members used by the library).  Cached by the hash of the source tree and of
+    the translator."""
+    import hashlib
+    gen_path = os.path.join(C.LEAN, "Vita", "C20", "Gen.lean")
+    h = hashlib.sha256()
+    h.update(C.repo_tree_hash("c20-translate").encode())
+    for f in ("translate_smallvec.py", "cxx2lean.py", os.path.join("tu", "smallvec_tu.cc"),
+              os.path.join("tu", "smallvec_users_tu.cc")):
+        h.update(open(os.path.join(C.ROOT, "tools", f), "rb").read())
+    if os.path.exists(gen_path):
+        h.update(open(gen_path, "rb").read())
+    key = h.hexdigest()
+    os.makedirs(C.BUILD, exist_ok=True)
+    stamp = os.path.join(C.BUILD, "c20_gen.stamp")
+    info_path = os.path.join(C.BUILD, "c20_gen.json")
+    if os.path.exists(stamp) and os.path.exists(info_path) and open(stamp).read() == key:
+        info = json.load(open(info_path))
+    else:
+        try:
+            info, changed = translate_smallvec.emit(gen_path)
+        except Exception as e:      # Refuse, clang failure
+            broken.append("translator tools/translate_smallvec.py refuses the current sources: %s" % (e,))
+            return
+        if changed:
+            C.log("[C20] lean/Vita/C20/Gen.lean regenerated (the sources of small_vector or its users changed)")
+        h = hashlib.sha256()
+        h.update(C.repo_tree_hash("c20-translate").encode())
+        for f in ("translate_smallvec.py", "cxx2lean.py", os.path.join("tu", "smallvec_tu.cc"),
+                  os.path.join("tu", "smallvec_users_tu.cc")):
+            h.update(open(os.path.join(C.ROOT, "tools", f), "rb").read())
+        h.update(open(gen_path, "rb").read())
+        json.dump(info, open(info_path, "w"))
+        with open(stamp, "w") as f:
+            f.write(h.hexdigest())
+    chk.cov["translated_functions"] = len(info["functions"])
+    chk.cov["members_used_by_the_library"] = info["used"]
+    chk.cov["translator_mode"] = info.get("mode")
+    for spec, sigs in info["used"].items():
+        chk.count("user:" + spec, len(sigs))
+
+
 def run(chk, replay=None):
     rng = C.SplitMix(chk.seed)
     quick = chk.tier == "quick"
     broken = []
 
+    translate(chk, broken)
     ok, out = C.lake_build(["c20_driver"])
     drv_ok = ok
     if not ok:
